@@ -2065,7 +2065,10 @@ func (e *executor) executeSetRow(ctx context.Context, index string, c *pql.Call,
 	}
 
 	result, err := e.mapReduce(ctx, index, shards, c, opt, mapFn, reduceFn)
-	return result.(bool), err
+	if err != nil {
+		return false, errors.Wrap(err, "mapreducing store")
+	}
+	return result.(bool), nil
 }
 
 // executeSetRowShard executes a SetRow() call for a single shard.
@@ -2682,7 +2685,7 @@ func (e *executor) translateCalls(ctx context.Context, index string, idx *Index,
 func (e *executor) translateCall(index string, idx *Index, c *pql.Call) error {
 	var colKey, rowKey, fieldName string
 	switch c.Name {
-	case "Set", "Clear", "Row", "Range", "SetColumnAttrs", "ClearRow":
+	case "Set", "Clear", "Row", "Range", "SetColumnAttrs", "ClearRow", "Store":
 		// Positional args in new PQL syntax require special handling here.
 		colKey = "_" + columnLabel
 		fieldName, _ = c.FieldArg()
